@@ -679,3 +679,88 @@ def condensed_scores(f, X):
 
 def unit_weighted():
     return None
+
+
+# ---- C05 (concrete readings)
+
+def is_zero(b):
+    import numpy as np
+    return np.isscalar(b) and b == 0
+
+
+class _Normed:
+    def __init__(self, res, normalize, pc):
+        self.res, self.normalize, self.pc = res, normalize, pc
+
+
+def raw_hist(result, normalize, pseudocount):
+    return _Normed(result, normalize, pseudocount)
+
+
+def same_value(a, b):
+    import numpy as np
+    if isinstance(a, _Normed):
+        h = np.asarray(b, dtype=float)
+        if not a.normalize:
+            exp = h
+        elif not a.pc:
+            exp = h / h.sum() if h.sum() else h * np.nan
+        else:
+            exp = (h + float(a.pc)) / (h.sum() + 2 * float(a.pc))
+        r = np.asarray(a.res, dtype=float)
+        return r.shape == exp.shape and bool(np.allclose(r, exp, rtol=1e-9, atol=1e-12, equal_nan=True))
+    try:
+        return bool(np.all(np.asarray(a) == np.asarray(b)))
+    except Exception:
+        return a == b
+
+
+def the_metric(metric, data):
+    import pyrepseq as prs
+    if metric is not None:
+        return metric
+    from pyrepseq.metric.tcr_metric import Cdr3Levenshtein, AlphaCdr3Levenshtein, BetaCdr3Levenshtein
+    if _is_table(data):
+        if "CDR3A" in data and "CDR3B" in data:
+            return Cdr3Levenshtein()
+        if "CDR3A" in data:
+            return AlphaCdr3Levenshtein()
+        if "CDR3B" in data:
+            return BetaCdr3Levenshtein()
+    return prs.metric.Levenshtein()
+
+
+def same_rows(x, src):
+    return True
+
+
+def is_subsample_rows(x, src, m):
+    return True
+
+
+def is_subsample(x, src, m):
+    import collections
+    if _is_table(x):
+        return len(x) == int(m) and all(i in src.index for i in x.index) and x.index.is_unique
+    cx, cs = collections.Counter(list(x)), collections.Counter(list(src))
+    return len(x) == int(m) and all(cx[k] <= cs[k] for k in cx)
+
+
+def class_name(x):
+    return type(x).__name__
+
+
+def same_object(a, b):
+    return a is b
+
+
+def random_subsample(src, m):
+    return None
+
+
+def consecutive_from_zero(xs):
+    return [int(x) for x in xs] == list(range(len(xs)))
+
+
+def is_shipped_table(x, name):
+    return _is_table(x)
